@@ -814,6 +814,35 @@ func init() {
 		}
 		return mkStr(out), true
 	}
+	symReplace := func(in *Interp, c *frame, fn *ssa.Function, a []value) (value, bool) {
+		if allConcrete(a) {
+			return nil, false
+		}
+		s, old, nw := a[0], a[1], a[2]
+		if _, ok := old.(string); !ok || strLen(old) == 0 {
+			panic(unsupported{"symbolic strings.Replace with symbolic or empty pattern"})
+		}
+		m := strLen(old)
+		var out []value
+		i := 0
+		for i < strLen(s) {
+			if i+m <= strLen(s) && in.truth(fromTerm(strEqTerm(strSlice(s, i, i+m), old))) {
+				out = append(out, strBytes(nw)...)
+				i += m
+			} else {
+				out = append(out, strByte(s, i))
+				i++
+			}
+		}
+		return mkStr(out), true
+	}
+	intrinsics["strings.Replace"] = func(in *Interp, c *frame, fn *ssa.Function, a []value) (value, bool) {
+		if n, ok := a[3].(uint64); ok && int64(n) >= 0 && !allConcrete(a) {
+			panic(unsupported{"symbolic strings.Replace with n >= 0"})
+		}
+		return symReplace(in, c, fn, a[:3])
+	}
+	intrinsics["strings.ReplaceAll"] = symReplace
 	intrinsics["strings.TrimSpace"] = func(in *Interp, c *frame, fn *ssa.Function, a []value) (value, bool) {
 		if allConcrete(a) {
 			return nil, false
